@@ -86,8 +86,9 @@ def enc_crosstab_table(df, agg, ncell):
     return {"columns": [enc_int(float(c) * 2) for c in cols], "rows": rows}
 
 
-def mk(arr, dtype, chunks=None, dims=("y", "x"), coords=None):
-    a = arr.astype(dtype)
+def mk(arr, dtype, chunks=None, dims=("y", "x"), coords=None, layout=None):
+    from harness.workers.layouts import apply_layout
+    a = apply_layout(arr.astype(dtype), layout)
     if chunks is not None:
         if a.ndim == 3:
             a = da.from_array(a, chunks=(tuple(chunks[2]) if len(chunks) > 2 else (a.shape[0],),
@@ -143,7 +144,8 @@ def run_job(job):
             return enc_stats_table(df, ncell)
         return enc_crosstab_table(df, job.get("agg", "count"), ncell)
     try:
-        df, _ = run_call(job, mk(zones, job["zdtype"]), mk(values, job["vdtype"], dims=vdims, coords=vcoords))
+        df, _ = run_call(job, mk(zones, job["zdtype"], layout=job.get("zlayout")),
+                         mk(values, job["vdtype"], dims=vdims, coords=vcoords, layout=job.get("vlayout")))
         out["np"] = encode(df)
     except Exception as ex:
         out["np_error"] = "%s: %s" % (type(ex).__name__, str(ex)[:200])
@@ -151,8 +153,8 @@ def run_job(job):
         case = {"z": ch["z"], "v": ch["v"], "sched": ch.get("sched", "synchronous"), "nw": ch.get("nw", 1),
                 "table": None, "error": "", "lazy": 0}
         try:
-            zr = mk(zones, job["zdtype"], chunks=ch["z"])
-            vr = mk(values, job["vdtype"], chunks=ch["v"], dims=vdims, coords=vcoords)
+            zr = mk(zones, job["zdtype"], chunks=ch["z"], layout=job.get("zlayout"))
+            vr = mk(values, job["vdtype"], chunks=ch["v"], dims=vdims, coords=vcoords, layout=job.get("vlayout"))
             df, lazy = run_call(job, zr, vr, case["sched"], case["nw"])
             case["lazy"] = int(lazy)
             case["table"] = encode(df)
